@@ -327,6 +327,27 @@ pub fn run(case: &str, st: &mut Stats) -> Outcome {
                     fails.push(format!("decision-DNNF counts {got} differ from the BDD counts {reference} of the same function"));
                 }
                 st.bump("dnnf_counts_compared");
+                // the complemented root (a negated decision-DNNF is counted through complemented
+                // pointers into nodes with constant children) against the BDD of the complement
+                let (gn, rn) = (counts_any(d.neg(), &codes, total), counts_any(p.neg(), &codes, total));
+                if gn != rn {
+                    fails.push(format!("negated decision-DNNF counts {gn} differ from the BDD counts {rn} of the complement"));
+                }
+            }
+            // the hash-identified top-down builder stores nodes unnormalised (complemented high
+            // edges): same function, same counts, root and negated root
+            let mb = rsdd::builder::decision_nnf::SemanticDecisionNNFBuilder::<{ primes::U64_LARGEST }>::new(VarOrder::new(&order));
+            let d2 = mb.compile_cnf_topdown(&cnf);
+            if (0..(1usize << total)).any(|a| eval_ptr(d2, a) != t[a]) {
+                fails.push("the semantic top-down decision-DNNF of the function's CNF denotes a different function (see C06 / C11)".to_string());
+            } else {
+                for (what, q, r) in [("", d2, reference.clone()), ("negated ", d2.neg(), counts_any(p.neg(), &codes, total))] {
+                    let got = counts_any(q, &codes, total);
+                    if got != r {
+                        fails.push(format!("{what}semantic decision-DNNF counts {got} differ from the BDD counts {r} of the same function"));
+                    }
+                }
+                st.bump("semantic_dnnf_counts_compared");
             }
         }
     }
